@@ -397,7 +397,17 @@ func (g *G) stmt(sc *scopeInfo) {
 		}
 	case 4:
 		v := sc.vars[g.T.Choose(len(sc.vars))]
-		g.act(v + " = " + g.strExpr(*sc, 0))
+		// the right side never reads a template variable: `v = v + v` (or two variables feeding each
+		// other) below nested ranges doubles a string per iteration - gigabytes within seconds
+		if !sc.noLocals && g.T.Choose(2) == 1 {
+			// a plain copy (or a length-preserving function) of a variable cannot grow
+			w := sc.vars[g.T.Choose(len(sc.vars))]
+			g.act(v + " = " + []string{w, "upper(" + w + ")", "lower(" + w + ")"}[g.T.Choose(3)])
+			break
+		}
+		rhs := *sc
+		rhs.vars = nil
+		g.act(v + " = " + g.strExpr(rhs, 0))
 	case 5:
 		g.ifStmt(*sc)
 	case 6:
